@@ -10,6 +10,7 @@ use std::panic::{self, AssertUnwindSafe};
 
 use serde_json::{Value, json};
 
+mod bristol;
 mod builder;
 mod circ;
 mod lang;
@@ -28,6 +29,8 @@ fn handle(case: &Value) -> Value {
         "reg_validate_eval" => circ::reg_validate_eval(case),
         "compile" => lang::compile(case),
         "convert" => circ::convert(case),
+        "bristol_export" => bristol::bristol_export(case),
+        "bristol_import" => bristol::bristol_import(case),
         "builder_run" => builder::builder_run(case),
         "panic_run" => builder::panic_run(case),
         "compile_eval" => lang::compile_eval(case),
